@@ -123,6 +123,7 @@ type streamWit struct {
 	Prev    string   `json:"previous"` // absent|empty|shorter|longer|equal|directory
 	Chunks  []string `json:"chunks"`
 	Buf     int      `json:"buf"`
+	Via     string   `json:"via,omitempty"` // "" all chunks through Write | mixed: Write / io.WriteString / io.Copy in turn
 }
 
 func prevContent(kind, data string) (string, bool) {
@@ -157,7 +158,7 @@ func streamCase(w streamWit) (kind, detail string) {
 				return
 			}
 		}
-		r := fsx.Exec(fs, treefs.Op{Kind: "Writer", P: "d/f", Chunks: w.Chunks})
+		r := fsx.Exec(fs, treefs.Op{Kind: "Writer", P: "d/f", Chunks: w.Chunks, Via: w.Via})
 		if r.Panic != "" {
 			kind, detail = "panic", r.Panic
 			return
@@ -751,16 +752,21 @@ func run(c *fw.Ctx) {
 							c.NotExhaustive("deadline in stream part")
 							return
 						}
-						w := streamWit{b, pv, ch, bf}
-						c.R.Evaluations++
-						c.Count("stream_cases", 1)
-						kind, detail := streamCase(w)
-						if kind == "setup" {
-							continue
-						}
-						if kind != "" {
-							report("C04/stream/"+kind+"/"+b+"/prev-"+pv, "after Close the file content is exactly the concatenation of the chunks; a reader returns exactly the stored bytes", fmt.Sprintf("backend %s\n%s", b, detail), map[string]interface{}{"stream": w},
-								func() bool { k2, _ := streamCase(w); return k2 == kind })
+						for _, via := range []string{"", "mixed"} {
+							w := streamWit{b, pv, ch, bf, via}
+							if via == "mixed" && (len(ch) < 2 || bf != 4096) {
+								continue
+							}
+							c.R.Evaluations++
+							c.Count("stream_cases", 1)
+							kind, detail := streamCase(w)
+							if kind == "setup" {
+								continue
+							}
+							if kind != "" {
+								report("C04/stream/"+kind+"/"+b+"/prev-"+pv, "after Close the file content is exactly the concatenation of the chunks; a reader returns exactly the stored bytes", fmt.Sprintf("backend %s (chunks written via %q)\n%s", b, via, detail), map[string]interface{}{"stream": w},
+									func() bool { k2, _ := streamCase(w); return k2 == kind })
+							}
 						}
 					}
 				}
@@ -958,7 +964,7 @@ func run(c *fw.Ctx) {
 		}
 	}
 	c.R.Distinct = c.R.Evaluations
-	c.Sample(map[string]interface{}{"stream": streamWit{"enc-disk", "longer", []string{"x", "", "yz"}, 2}})
+	c.Sample(map[string]interface{}{"stream": streamWit{"enc-disk", "longer", []string{"x", "", "yz"}, 2, ""}})
 	c.Sample(map[string]interface{}{"copy": copyWit{Helper: "Copy", Src: "disk", Dst: "enc-mem", Tree: 2, Fail: []int{7}}})
 }
 
@@ -1031,7 +1037,7 @@ func replay(wj json.RawMessage) (*fw.Violation, error) {
 
 func init() {
 	fw.Register(&fw.Check{ID: "C04", Level: "fault_enumeration",
-		Rule: "streams: backends{mem,disk,enc-mem,enc-disk,cache-mem} x contents{'', 'x', 'xyz', 5KiB} x every split into <=3 chunks (incl. empty chunks; fixed cut points for the long content) x previous destination{absent,empty,shorter,longer,equal,directory} x read buffers{1,2,3,4096}; two writers (then two readers) open at the same time on every backend pair, fed in alternation from one re-used caller buffer, both close orders, contents up to 40 KiB; copy helpers {fshelper.Copy, Copier.Do(dir), Copier.Do(file), StreamCopy} x 5 tree shapes (one with a 70 KiB file, i.e. several rounds of the 32 KiB copy loop) x all 25 source/destination backend pairs, fault-free over 5 destination pre-states (empty, same paths with older longer/shorter content, unrelated nodes, regular files where the source has directories, directories where the source has files: nil result => every source node present with its kind and bytes) and with EVERY single numbered call (open/Read/Write/Close/MkdirAll/ReadDir/IsFile/IsDir/Filespace, on source and destination; error and short-write variants) failing, for encrypted backends also with the failing layer below the encryption; thorough adds every pair of failing calls (memory) and preemption bound 2 for the concurrent tree copy. distinct = cases; all run the real code",
+		Rule: "streams: backends{mem,disk,enc-mem,enc-disk,cache-mem} x contents{'', 'x', 'xyz', 5KiB} x every split into <=3 chunks (incl. empty chunks; fixed cut points for the long content; all chunks through Write, and Write / io.WriteString / io.Copy in turn on one handle) x previous destination{absent,empty,shorter,longer,equal,directory} x read buffers{1,2,3,4096}; two writers (then two readers) open at the same time on every backend pair, fed in alternation from one re-used caller buffer, both close orders, contents up to 40 KiB; copy helpers {fshelper.Copy, Copier.Do(dir), Copier.Do(file), StreamCopy} x 5 tree shapes (one with a 70 KiB file, i.e. several rounds of the 32 KiB copy loop) x all 25 source/destination backend pairs, fault-free over 5 destination pre-states (empty, same paths with older longer/shorter content, unrelated nodes, regular files where the source has directories, directories where the source has files: nil result => every source node present with its kind and bytes) and with EVERY single numbered call (open/Read/Write/Close/MkdirAll/ReadDir/IsFile/IsDir/Filespace, on source and destination; error and short-write variants) failing, for encrypted backends also with the failing layer below the encryption; thorough adds every pair of failing calls (memory) and preemption bound 2 for the concurrent tree copy. distinct = cases; all run the real code",
 		Run: run, Replay: replay,
 		Assumptions: []string{"fault positions are the calls crossing the Filespace/Reader/Writer interfaces (harness-side wrapper)", "a bool query 'fails' by answering false", "fshelper.Copy runs under the controlled scheduler: default schedule for the fault sweep, bounded preemptions for the fault-free case"}})
 }
